@@ -5,22 +5,41 @@ import fmtcommon as F
 SRC = 'core/src/language/python.rs'
 
 PRELUDE = r'''
+/// the (module, name) pairs recorded for the import block (`imports: HashMap<module, HashSet<name>>`)
+pub uninterp spec fn imported_of(m: HashMap<String, HashSet<String>>) -> Set<(Seq<char>, Seq<char>)>;
 impl Python {
-    /// stubs for Python::add_import / add_imports (record a module member for the import block - C12's domain): leave type_mappings alone
+    /// stub for Python::add_import (`self.imports.entry(module).or_default().insert(identifier)`): records the pair, nothing else changes
     #[verifier::external_body]
     fn add_import(&mut self, module: String, identifier: String)
-        ensures final(self).cfg() == old(self).cfg()
+        ensures final(self).cfg() == old(self).cfg(), imported_of(final(self).imports) == imported_of(old(self).imports).insert((module@, identifier@)),
     { unimplemented!() }
+    /// stub for Python::add_imports (imports for the well-known names Url / DateTime): only adds
     #[verifier::external_body]
     fn add_imports(&mut self, tp: &str)
-        ensures final(self).cfg() == old(self).cfg()
+        ensures final(self).cfg() == old(self).cfg(), imported_of(old(self).imports).subset_of(imported_of(final(self).imports)),
     { unimplemented!() }
 }
 /// outlined (T3): `if json_translation_for_type(mapped).is_some() { self.types_for_custom_json_translation.insert(..) }` - bookkeeping
-/// for the custom (de)serialisers (C12's domain); touches only that field
+/// for the custom (de)serialisers; touches only that field
 #[verifier::external_body]
 fn note_custom_translation(seen: &mut HashSet<String>, mapped: &String) { unimplemented!() }
 '''
+
+PY_HELPERS = [('Seq', 'typing', 'List'), ('Opt', 'typing', 'Optional'), ('Map', 'typing', 'Dict'), ('DateTime', 'datetime', 'datetime')]
+
+
+def _clauses(reach, where):
+    return ' '.join('/*C12*/ (r is Ok && %s) ==> imported_of(%s.imports).contains(("%s"@, "%s"@)),' % (reach % k, where, m, n) for (k, m, n) in PY_HELPERS)
+
+
+X12 = {
+    'frame': '/*C12: recorded imports are never lost*/ imported_of(old(self).imports).subset_of(imported_of(final(self).imports)),',
+    'ty': '/*C12: a type expression that prints List[ / Optional[ / Dict[ / datetime has recorded the import of that name*/ ' + _clauses('reaches(old(self).cfg(), *ty, Kind::%s)', 'final(self)'),
+    'gen': _clauses('reaches_any(old(self).cfg(), *base, parameters@, Kind::%s)', 'final(self)'),
+    'special': _clauses('reaches_special(old(self).cfg(), *special_ty, Kind::%s)', 'final(self)'),
+    'inv': '\n                    /*C12*/ imported_of(old(self).imports).subset_of(imported_of(self.imports)), ' + ' '.join(
+        'forall|k: int| 0 <= k < it.index@ ==> (reaches(c0, #[trigger] parameters@[k], Kind::%s) ==> imported_of(self.imports).contains(("%s"@, "%s"@))),' % (k, m, n) for (k, m, n) in PY_HELPERS),
+}
 
 SPECIAL = F.SPECIAL_HEAD + F.special_key_reps(1) + [
     rep(A.span('if json_translation_for_type(mapped).is_some() {', '.insert(mapped.to_string()); }'),
@@ -36,7 +55,9 @@ UNIT = F.make_unit('fmt_python', 'Python', SRC, 'Python',
                    'TCfg { lang: Lang::Python, map: self.type_mappings@, prefix: Seq::empty(), no_pointer_slice: false }',
                    PRELUDE, SPECIAL,
                    overrides={'format_generic_type': (GENERIC, ('fmt',)), 'format_simple_type': (F.simple_contract('_generic_types'), ())},
-                   trusted_extra=['stubs: Python::add_import / add_imports and the custom-translation bookkeeping leave type_mappings unchanged (import bookkeeping is C12\'s domain)'])
+                   trusted_extra=['stubs: Python::add_import records the (module, name) pair and changes nothing else; add_imports only adds; the custom-translation bookkeeping touches only its own field'],
+                   x12=X12)
+UNIT.spec_files = list(UNIT.spec_files) + ['helpers.rs']
 # Python never calls format_generic_parameters (its format_generic_type spells the brackets itself); the trait default is still extracted and
 # verified against the default notation, it is simply unused by this back end
 
